@@ -230,7 +230,7 @@ def run_op(slot, op, root):
     al = op.get("as_list", False)
     if name == "pdf":
         pts = _points(slot, rng, 5)
-        if rng.random() < 0.5 and not slot.spec.get("transformed"):
+        if rng.random() < 0.5:
             pts[0, int(rng.integers(0, slot.n_dim))] = 0.0  # a point on the edge of the support
             pts[1, int(rng.integers(0, slot.n_dim))] = -0.5  # and one outside
         x = arr(pts)
